@@ -148,6 +148,27 @@ fn strategy() -> impl Strategy<Value = Case> {
         })
 }
 
+/// `put_record_to_peers` whose list names a healthy target two or three times next to targets that fail late (a socket that
+/// takes the connection and stays silent) or at once: the quorum has to be met by distinct peers.
+fn repeated_targets_strategy() -> impl Strategy<Value = Case> {
+    (
+        prop::collection::vec(prop_oneof![3 => Just(Kind::BlackHole), 1 => Just(Kind::Undialable), 1 => Just(Kind::NoKad), 1 => Just(Kind::Healthy)], 1..3),
+        any::<u8>(),
+        1u8..3,
+        prop_oneof![Just(2u8), Just(3u8), Just(255u8)],
+        prop::collection::vec((0u8..3, 1u8..16, quorum_strategy(), 0u8..3).prop_map(|(key, targets, quorum, dup)| QOp::PutTo { key, targets, quorum, dup }), 0..2),
+        any::<u64>(),
+    )
+        .prop_map(|(others, preconnect, dup, quorum, more, seed)| {
+            let mut slots = vec![Kind::Healthy];
+            slots.extend(others);
+            let all = (1u8 << slots.len()) - 1;
+            let mut ops = vec![QOp::PutTo { key: 0, targets: all, quorum, dup }];
+            ops.extend(more);
+            Case { replication: 20, slots, known: 0xff, preconnect: preconnect | 1, limit_full: false, stored: 0, ops, kill_at_ms: 0, hold: false, seed }
+        })
+}
+
 /// Put / announce operations whose targets include peers that cannot be dialed at all (no usable address, refused
 /// connection, outbound limit full).
 fn unreachable_targets_strategy() -> impl Strategy<Value = Case> {
@@ -696,6 +717,7 @@ pub fn run(ctx: &mut Ctx) {
     let avoid = ctx.avoid(crate::props::c05::SIG_G) && ctx.is_generate();
     ctx.campaign("operations", CampaignCfg::new(t.pick(400, 8_000)).shards(32).shrink_iters(6), strategy, move |c: &Case| run_case(c, d, avoid));
     ctx.campaign("unreachable-targets", CampaignCfg::new(t.pick(160, 3_000)).shards(32).shrink_iters(6), unreachable_targets_strategy, move |c: &Case| run_case(c, d, avoid));
+    ctx.campaign("repeated-targets", CampaignCfg::new(t.pick(128, 2_400)).shards(32).shrink_iters(6), repeated_targets_strategy, move |c: &Case| run_case(c, d, avoid));
     ctx.campaign("rogue-answers", CampaignCfg::new(t.pick(320, 6_000)).shards(32).shrink_iters(6), rogue_answers_strategy, move |c: &Case| run_case(c, d, avoid));
     ctx.campaign("killed-while-connecting", CampaignCfg::new(t.pick(480, 10_000)).shards(32).shrink_iters(4), killed_while_connecting_strategy, move |c: &Case| run_case(c, d, avoid));
     if matches!(t, crate::engine::Tier::Thorough) {
